@@ -38,6 +38,11 @@ CLAIMED = {
    note="Trusted: Go type checker, go/ssa, tables in checker/c04.go; entry mappers return fresh keys. Not covered: B-tree content (C10), mapper functions.",
    technique="alias taint, loop-carried-state dataflow, guard dominance and must-pass-through on the SSA CFG",
    ref="DESIGN.md §3 C04"),
+ "C08": dict(
+   text="Static decision of structural clauses of the Merkle constructions: domain-separation constants and their use at every tree hash site; verifier guards (i<=j, i!=0) dominate evaluation, verdicts compare evaluated and claimed roots, every verifier parameter influences the verdict beyond a zero check (known finding: VerifyLastInclusion's size), the entry-tree verifier ties term count to (Leaf, Width); ResetSize syncs and invalidates caches before shrinking; Append rewinds both logs before writing and advances sizes only without sync failure.",
+   note="Trusted: Go type checker, go/ssa, tables in checker/c08.go. Not covered: equality with the reference construction for all sizes (digest-log arithmetic).",
+   technique="hash-site shape analysis on SSA, guard dominance, parameter-influence (data/control dependence) analysis, ordering rules",
+   ref="DESIGN.md §3 C08"),
  "C09": dict(
    text="Static decision of the structural clauses behind corruption detection: every tx-record reader ends in the Alh validation over all entry digests, every value read compares length and digest unless the skip flag is set, the flag is true only at a frozen list of call sites and false for proven material on verifiable paths, sequential scans and open-time checks re-validate the chain.",
    note="Trusted: Go type checker, go/ssa, sha256, tables in checker/c09.go. Not covered: that every bit flip changes a hash; absence of panics is C16.",
